@@ -203,6 +203,11 @@ def run(ctx, chk):
              "(failure leaves no partial state; shared with C01.drain)")
     from props.c01 import check_load_paths
     check_load_paths(chk, prog, eff, R_window=None, R_drain="C06.drain", R_outcome=None)
+    chk.rule("C06.push-atomic", "the decoding stack's push either links a record and counts it or refuses and leaves the stack as it was: no field of the "
+             "stack header is written on a path of _cbor_stack_push that returns NULL (a refused record allocation must not be counted - "
+             "cbor_load unwinds `size` records), and a successful push makes the returned record the top and the depth one larger")
+    import rules as _rpa
+    _rpa.check_push_atomic(chk, "C06.push-atomic", prog, eff)
     chk.exhaustive = True
 
 
@@ -475,6 +480,7 @@ def check_no_access_after_free(chk, rule, prog, eff, floor=20):
         worst = {}
         for k, pa in enumerate(P.Executor(prog, eff, inline=inl, loop_bound=1).run(f.name)):
             freed = {}
+            handed = {}
             for e in pa.events:
                 if e.kind == "call" and e.ckind == "alloc" and e.callee == "_cbor_free":
                     x = e.args[0]
@@ -493,6 +499,22 @@ def check_no_access_after_free(chk, rule, prog, eff, floor=20):
                     if r in freed:
                         fe = freed[r]
                         worst[("free", fe.fn.name, fe.ins.id)] = (False, fe, "%s at %s addresses the block after it was released" % (e.kind, e.ins.loc()), pa)
+                if e.kind == "call" and e.ckind == "lib" and e.callee in O.CONSUMES and e.depth == 0:
+                    # handing an item to a routine that consumes the reference (the builder's append: attaches it to its parent, or
+                    # releases it when the parent refuses it): from here on the item may be gone
+                    for kk in O.CONSUMES[e.callee]:
+                        x = e.args[kk] if kk < len(e.args) else None
+                        if isinstance(x, tuple) and x[0] == "call" and x[1].startswith(("cbor_new_", "cbor_build_")):
+                            handed[x] = e
+                            worst.setdefault(("handoff", e.fn.name, e.ins.id), (True, e, "", pa))
+                elif handed and e.kind in ("load", "store", "call") and e.depth == 0:
+                    roots = [_addr_root(e.args[0])] if e.kind != "call" else [a for a in e.args if isinstance(a, tuple)]
+                    for r in roots:
+                        if r in handed:
+                            he = handed[r]
+                            worst[("handoff", he.fn.name, he.ins.id)] = (
+                                False, he, "%s at %s uses the item after it was handed to %s, which releases it when its parent refuses it" % (
+                                    e.callee if e.kind == "call" else e.kind, e.ins.loc(), he.callee), pa)
         for key, (ok, e, det, pa) in worst.items():
             n += 1
             chk.ob(rule, "%s: nothing addresses a block after its release in %s" % (f.name, e.fn.name), ok, e.ins.loc(), fn=f.name,
